@@ -21,3 +21,7 @@ func vShort(ids []string) []string {
 	}
 	return r
 }
+
+// vOracleSkipCheck makes vOracle skip `check --read-data` (set while judging histories whose storage was
+// damaged by the environment before the command under test ran).
+var vOracleSkipCheck bool
